@@ -8,7 +8,7 @@ demo() { ( cd "$1" && if [ -x run.sh ]; then ./run.sh >/dev/null 2>&1; echo "exi
 for i in 1 2 3; do
   [ -f $O/$i/patch.diff ] || { echo "$ID/$i: no patch"; continue; }
   (cd $W && git checkout -q -- . && git apply $O/$i/patch.diff) || { echo "$ID/$i: PATCH DOES NOT APPLY"; continue; }
-  suite=$(cd $W && cargo test --workspace --offline 2>&1 | grep -E "^test result" | head -2 | awk '{print $4}' | paste -sd+)
+  suite=$(cd $W && cargo test --workspace --offline 2>&1 | grep -E "^test result|^error" | awk '{ if ($1=="error") e++; else if ($3=="ok.") p+=$4; else f++ } END { printf "passed=%d failed-binaries=%d errors=%d", p, f, e }')
   with=$(demo $O/$i/demo)
   (cd $W && git checkout -q -- .)
   without=$(demo $O/$i/demo)
